@@ -5,3 +5,4 @@ import Bp7.Props.C13
 #print axioms Bp7.C13.refbundle_eq_id
 #print axioms Bp7.C13.decStr_injective
 #print axioms Bp7.C13.decStr_no_dash
+#print axioms Bp7.C13.refbundle_eq_id_general
